@@ -70,6 +70,7 @@ RUNS = {
     "C06": [
         {"name": "K7-tags", "mode": "k7tags", "budget": (120, 3000), "nontrivial": r"missing=0", "keyfn": "generic"},
         {"name": "K7-tag-reuse", "mode": "k7reuse", "budget": (20, 400), "nontrivial": r".", "keyfn": "generic"},
+        {"name": "K7-mutual-flushes", "mode": "kmutual", "budget": (60000, 2000000), "nontrivial": r"stuck=0", "keyfn": "generic"},
         {"name": "K7-flush-replies", "mode": "k7flush", "budget": (60, 1500), "nontrivial": r"rflush=1", "keyfn": "generic"},
         {"name": "K7-pairs-delay", "mode": "k7pair", "budget": (320, 968), "nontrivial": r"overlap=1", "keyfn": "k7pair"},
         {"name": "K7-scenarios", "mode": "k7scen", "budget": (8, 150), "nontrivial": r".", "keyfn": "k7scen"},
